@@ -62,7 +62,7 @@ claimed = {
          "contracts + VC generation over go/ssa + SMT"),
  'C20': ("Proved: equal computes the specification's deep, type-strict equality specEq (arrays element-wise, objects key-wise with equal cardinality, numbers by decimal value, never across types); "
          "contains uses the same relation; isTrue is false exactly for null, false, empty string/array/object; filter keeps exactly the elements whose predicate value is truthy. "
-         "the ==, !=, &&, ||, ! cases of evaluate return mkBool(specEq), its negation, one of the operands unchanged, and mkBool(!truthy). Not covered: reflexivity/symmetry/transitivity lemmas of specEq.",
+         "the ==, !=, &&, ||, ! cases of evaluate return mkBool(specEq), its negation, one of the operands unchanged, and mkBool(!truthy). Lemmas proved from the defining axioms of specEq: symmetric, reflexive (numbers: for values that are not NaN) and transitive on scalars, never true across JSON types, and symmetric on arrays provided it is on their elements (the induction step over the nesting depth). Not covered: the object case of these laws (needs cardinality reasoning), the induction over the depth itself.",
          "contracts + VC generation over go/ssa + SMT"),
  'C15': ("Determinism by elimination of its sources in sequential Go, as a sweep over every function reachable from the API: no store to a package-level variable, no go/select/channel instruction, no external callee without a (deterministic, functional) contract, "
          "and every loop over a map (10 of them) must carry a proved invariant tagged C15 that ties what the loop has computed to the set of members visited (let bindings, multi-select hashes, merge, object equality) or, for the permitted enumerations "
